@@ -40,7 +40,7 @@ def f1_affected(model, obs0):
 
 
 def reference(case):
-    model = hmmref.Model(case["graph"], case["config"])
+    model = hmmref.Model(case["graph"], case["config"], linked=case.get("linked"))
     obs = [tuple(p[:2]) for p in case["trace"]]
     cols = model.viterbi(obs)
     k = len(cols)
@@ -102,10 +102,12 @@ def check_case(case, ctx):
     if affected and ctx.known("F1", "InMemMap.edges_closeto drops edges whose start node lies outside the box"):
         classes.append("excluded:F1-on-inmem")
     else:
-        compare(case, base.mk_inmem(case["graph"]), model, obs, k, best, "inmem")
+        compare(case, base.mk_inmem(case["graph"], linked=case.get("linked")), model, obs, k, best, "inmem")
         ran = True
     # SQLite offers no "stay on this node" move (C12 grants that difference), so only edge-based families run there
-    if int_labels and model.only_edges and (affected or case.get("also_sqlite")):
+    if case.get("linked"):
+        classes.append("linked-edges")
+    if int_labels and model.only_edges and not case.get("linked") and (affected or case.get("also_sqlite")):
         d = tempfile.mkdtemp(prefix="lmmv_c01_", dir=base_tmp())
         try:
             sm = base.mk_sqlite(case["graph"], d)
@@ -135,5 +137,8 @@ def strategy(tier):
                                    graph_kw={"label_kinds": kinds},
                                    config_kw={"ne": False, "width": None, "first_order": True}))
         case["also_sqlite"] = draw(st.integers(0, 9)) == 0
+        if case["config"]["family"] != "simple_n" and draw(st.integers(0, 7)) == 0:
+            from . import common
+            case["linked"] = draw(common.linked_pairs(case["graph"]))  # linked parallel edges are moves of the map too
         return case
     return _s()
